@@ -41,7 +41,7 @@ theorem names_sub_allNamesL {s : Ind F} {l : List (Ind F)} (h : s ∈ l) : ∀ k
   rw [Ind.allNamesL_eq_flatMap]
   exact List.mem_flatMap.2 ⟨s, h, hk⟩
 
-theorem dlookup_mem {α : Type} {key : String} {v : α} {l : List (String × α)}
+theorem Writes.dlookup_mem {α : Type} {key : String} {v : α} {l : List (String × α)}
     (h : dlookup key l = some v) : (key, v) ∈ l := by
   induction l with
   | nil => simp at h
@@ -56,7 +56,7 @@ theorem names_sub_allNamesM {key : String} {m : Ind F} {l : List (String × Ind 
     (h : dlookup key l = some m) : ∀ k, k ∈ m.allNames → k ∈ Ind.allNamesM l := by
   intro k hk
   rw [Ind.allNamesM_eq_flatMap]
-  exact List.mem_flatMap.2 ⟨(key, m), dlookup_mem h, hk⟩
+  exact List.mem_flatMap.2 ⟨(key, m), Writes.dlookup_mem h, hk⟩
 
 /-- a managed helper obtained through `getManaged` writes only names of its parent's tree -/
 theorem Ind.getManaged_names {i m : Ind F} {key : String} (h : i.getManaged key = .ok m) :
